@@ -594,6 +594,10 @@ def run(ctx):
                 ctx.nontriv(("r", k, j))
     ctx.sample({"random_session": cases[-1]})
     ctx.validate(SPEC, "DialogueTrace", "DialogueTrace.cfg", traces, cases=cases, name="recorded-dialogues")
+    # ---- extension beyond the listed property: input / output streams and small utilities (specs/Streams; A-clauses only)
+    from harness.props import ext_streams
+
+    ext_streams.run_ext(ctx)
 
 
 def replay(ctx, path):
